@@ -7,6 +7,7 @@ import (
 	"go/ast"
 	"go/token"
 	"go/types"
+	"regexp"
 	"strings"
 )
 
@@ -423,6 +424,7 @@ func checkC17(c *Ctx) {
 			"state created once per route (when the handler is registered) is written by every request: "+strings.Join(bad, "; ")+" — requests to the same route see each other's fields and race", map[string]any{"captured": len(captured)})
 	}
 
+	c17RouteOwnHeaders(c)
 	// ---- R17d registration
 	nReg := 0
 	regBad, regBadPos := "", ""
@@ -533,4 +535,58 @@ func checkC17(c *Ctx) {
 // holeFree replaces hole placeholders by * so that obligation keys do not depend on hashes.
 func holeFree(s string) string {
 	return holeRe.ReplaceAllString(s, "*")
+}
+
+// c17RouteOwnHeaders: R17f — every route is registered with the header list of its own method.
+func c17RouteOwnHeaders(c *Ctx) {
+	r := c.R
+	r.Rule("R17f", "every route is registered with the header list of its own method (no value left over from the previous method)", 1)
+	fn := c.P.Func(pkgHTTP, "Generator.generateService")
+	if fn == nil {
+		r.Unres("R17f", "generateService", "", "not found")
+		return
+	}
+	c.W.Concrete = true
+	defer func() { c.W.Concrete = false }()
+	in, out := cMessage("Req"), cMessage("Resp")
+	hdr := func(n string) Val { return VList{Key: "h", Elems: []Val{cHeader(n, "string", "", true)}} }
+	none := VList{Key: "h0", Elems: []Val{}}
+	m1 := cMethod("CreateItem", in, out, map[string]Val{"@GetMethodHeaders": hdr("X-Request-ID")})
+	m2 := cMethod("GetItem", in, out, map[string]Val{"@GetMethodHeaders": none})
+	m3 := cMethod("Audit", in, out, map[string]Val{"@GetMethodHeaders": hdr("X-Admin-Token")})
+	m4 := cMethod("Stats", in, out, map[string]Val{"@GetMethodHeaders": none})
+	svc := cService("Items", m1, m2, m3, m4)
+	svc.Fields["@GetServiceHeaders"] = none
+	file := cstruct("File", map[string]Val{"GoPackageName": constStr("pkg"), "Services": VList{Key: "s", Elems: []Val{svc}}})
+	run := c.W.NewRun(map[string]int{}, false)
+	run.InlineAll, run.FollowSlices = true, true
+	run.CallHook = c.cdescHook
+	run.Units = []*Unit{{}}
+	run.StartArgs(fn, map[string]Val{"file": file, "service": svc})
+	pos := c.P.Pos(c.P.Decls[fn].Pos())
+	if len(run.Used) > 0 || run.Aborted != "" {
+		r.Undec("R17f", "registration of a concrete four-method service", pos, fmt.Sprintf("open decisions %v aborted %q", usedKeys(run), run.Aborted))
+		return
+	}
+	cur := ""
+	assignRe := regexp.MustCompile(`^methodHeaders :?= get(\w+)Headers\(\)`)
+	routeRe := regexp.MustCompile(`^(\w+)Handler := BindingMiddleware\[`)
+	bad := []string{}
+	nRoutes := 0
+	for _, u := range run.Units {
+		for _, l := range u.Lines {
+			t := strings.TrimSpace(lineText(l.Segs))
+			if m := assignRe.FindStringSubmatch(t); m != nil {
+				cur = m[1]
+			}
+			if m := routeRe.FindStringSubmatch(t); m != nil {
+				nRoutes++
+				if !strings.EqualFold(m[1], cur) {
+					bad = append(bad, fmt.Sprintf("route %s is registered with the headers of %s", m[1], cur))
+				}
+			}
+		}
+	}
+	r.Check(len(bad) == 0 && nRoutes == 4, "R17f", "four-method service: each BindingMiddleware call follows the assignment of its own method's headers", pos,
+		fmt.Sprintf("Register<Service>Server reuses one methodHeaders variable; for methods CreateItem(headers), GetItem(none), Audit(headers), Stats(none): %s (routes found: %d) — a route without method headers then enforces the required headers of the route registered before it", strings.Join(bad, "; "), nRoutes))
 }
